@@ -136,12 +136,14 @@ func altModfile(work string) (string, error) {
 	if work == "" {
 		dir = os.TempDir()
 	}
-	mf := filepath.Join(dir, "alt.go.mod")
+	// one modfile per output binary: the builds of one run go on side by side and the go command may rewrite its modfile
+	stem := "alt-" + filepath.Base(work)
+	mf := filepath.Join(dir, stem+".go.mod")
 	if err := os.WriteFile(mf, []byte(mod), 0o644); err != nil {
 		return "", err
 	}
 	sum, _ := os.ReadFile(filepath.Join(verifRoot, "harness", "go.sum"))
-	_ = os.WriteFile(filepath.Join(dir, "alt.go.sum"), sum, 0o644)
+	_ = os.WriteFile(filepath.Join(dir, stem+".go.sum"), sum, 0o644)
 	return mf, nil
 }
 
